@@ -1,6 +1,5 @@
 /-
-  B3.B3sum.Model — executable model of /repo/b3sum/src/main.rs (BLAKE3 1.8.6 + fix commits 008d515, bb2f114;
-  Unix build).
+  B3.B3sum.Model — executable model of /repo/b3sum/src/main.rs (BLAKE3 1.8.6, Unix build).
 
   The model follows the control flow of the Rust source function by function:
 
@@ -353,20 +352,15 @@ structure Parsed where
   expectedHash : List UInt8
   deriving DecidableEq, Repr
 
-/-- the split step of `parse_check_line`: `(hash_hex, file_str)`.  The tagged form
-`BLAKE3 (<file>) = <hash>` is tried FIRST (an untagged line starts with the hash, never with
-`BLAKE3 (`, but a tagged line may contain two spaces in its file name). -/
+/-- the split step of `parse_check_line`: `(hash_hex, file_str)` -/
 def splitLine (lineAfterSlash : Str) : Res PErr (Str × Str) :=
-  (splitTagged lineAfterSlash).bind fun o =>
+  match splitUntagged lineAfterSlash with
+  | some lr => .ok (lr.1, lr.2)
+  | none =>
+    (splitTagged lineAfterSlash).bind fun o =>
     match o with
     | some lr => .ok (lr.2, lr.1)
-    | none =>
-      match splitUntagged lineAfterSlash with
-      | some lr => .ok (lr.1, lr.2)
-      | none => .err .format
-
-/-- `str::is_ascii` -/
-def isAscii (s : Str) : Bool := s.all fun c => c.toNat < 0x80
+    | none => .err .format
 
 /-- `parse_check_line` -/
 def parseCheckLine (line0 : Str) : Res PErr Parsed :=
@@ -380,8 +374,7 @@ def parseCheckLine (line0 : Str) : Res PErr Parsed :=
     (splitLine el.2).bind fun hf =>
     let hashHex := hf.1
     let fileStr := hf.2
-    if byteLen hashHex ≠ 2 * OUT_LEN then .err .hashLength        -- ensure!(hash_hex.len() == 64)
-    else if ¬ isAscii hashHex then .err .hex                      -- ensure!(hash_hex.is_ascii(), "Invalid hex")
+    if byteLen hashHex ≠ 2 * OUT_LEN then .err .hashLength
     else
       (decodeHashLoop OUT_LEN hashHex).bind fun hashBytes =>
       (if isEscaped then unescape fileStr else .ok fileStr).bind fun filePathString =>
